@@ -107,7 +107,9 @@ class FitYamlWriter(YamlWriterMixin, FitDReprBase):
         if _cost_function_identifier is not None:
             _yaml_doc["cost_function"] = _cost_function_identifier
         else:
-            _yaml_doc["cost_function"] = _process_function_code_for_dump(inspect.getsource(fit._cost_function.func))
+            # a cost function that was itself read from a file has no source file: use the code it was created from
+            _cost_func = fit._cost_function.func
+            _yaml_doc["cost_function"] = _process_function_code_for_dump(getattr(_cost_func, "_kafe2_source_code", None) or inspect.getsource(_cost_func))
 
         _yaml_doc["minimizer"] = fit._minimizer
         _yaml_doc["minimizer_kwargs"] = fit._minimizer_kwargs
@@ -209,7 +211,9 @@ class FitYamlReader(YamlReaderMixin, FitDReprBase):
             else:
                 _lookup_dict = STRING_TO_COST_FUNCTION
             if _cost_function not in _lookup_dict:
-                _cost_function = _parse_function(_cost_function)
+                _cost_function_code = _cost_function
+                _cost_function = _parse_function(_cost_function_code)
+                _cost_function._kafe2_source_code = _cost_function_code
 
         _minimizer = yaml_doc.pop("minimizer", None)
         _minimizer_kwargs = yaml_doc.pop("minimizer_kwargs", None)
